@@ -16,13 +16,19 @@
 #define VR_CALL(RULE) \
 	KSI_VerificationContext *info; KSI_RuleVerificationResult *result; int res; \
 	vr_world_init(); \
-	g_vr_shape_known = nondet_bool(); g_vr_shape_time = nondet_ll(); g_vr_root_known = nondet_bool(); \
+	g_vr_shape_known = nondet_bool(); g_vr_shape_time = nondet_ll(); g_vr_root_known = nondet_bool(); g_vr_rfcout_known = nondet_bool(); \
 	g_vr_cal.outputHash = VR_OPT(&g_vr_h[VR_H_NEW1]); g_vr_h_ref[VR_H_NEW1] = g_vr_cal.outputHash != NULL ? 1 : 0; \
+	VR_EXTRA_INIT \
 	info = VR_OPT(&g_vr_info); result = VR_OPT(&g_vr_res); \
 	res = RULE(info, result); \
 	REACH("returned"); \
 	if (res == KSI_OK && result != NULL && result->resultCode == KSI_VER_RES_OK) REACH("verdict OK"); \
 	if (result != NULL && result->resultCode == KSI_VER_RES_NA) REACH("verdict NA / error status");
+#ifdef H_int01rfc
+#define VR_EXTRA_INIT g_vr_cal.outputHash = NULL; g_vr_h_ref[VR_H_NEW1] = 0;
+#else
+#define VR_EXTRA_INIT
+#endif
 #define VR_REACH_FAIL(code, msg) if (res == KSI_OK && result != NULL && result->resultCode == KSI_VER_RES_FAIL && result->errorCode == (code)) REACH(msg);
 
 #ifdef H_selector
@@ -32,6 +38,15 @@ void harness(void) { VR_CALL(RULE) }
 #ifdef H_int13
 void harness(void) { VR_CALL(KSI_VerificationRule_AggregationChainInputHashAlgorithmVerification) VR_REACH_FAIL(KSI_VER_ERR_INT_13, "FAIL INT-13")
 	if (res == KSI_OK && result->resultCode == KSI_VER_RES_OK && vr_alg(vr_signed_hash(&g_vr_sig)) == 0) REACH("SHA-1 accepted before its deprecation date"); }
+#endif
+#ifdef H_int11_padding
+void harness(void) { KSI_TlvElement *el = (KSI_TlvElement *)nondet_ptr(); int res;
+	res = metaDataPadding_verify(VR_CTX, el);
+	REACH("returned"); if (res == KSI_OK) REACH("padding accepted"); else REACH("padding refused"); }
+#endif
+#ifdef H_int01rfc
+void harness(void) { VR_CALL(KSI_VerificationRule_AggregationChainInputHashVerification) VR_REACH_FAIL(KSI_VER_ERR_INT_1, "FAIL INT-01")
+	if (res == KSI_OK && result->resultCode == KSI_VER_RES_OK && g_vr_sig.rfc3161 != NULL) REACH("OK for a legacy signature"); }
 #endif
 #ifdef H_int17
 void harness(void) { VR_CALL(KSI_VerificationRule_Rfc3161RecordOutputHashAlgorithmVerification) VR_REACH_FAIL(KSI_VER_ERR_INT_17, "FAIL INT-17") }
